@@ -628,6 +628,11 @@ class _ParseFunction(_nt('_ParseFunction', 'func, args, kwargs')):
     def __call__(self, ${ctx}_text, _pos):
         return self.func(${ctx}_text, _pos, *self.args, **dict(self.kwargs))
 
+    def __hash__(self):
+        # The memo table is keyed by this object, and argument values may be
+        # lists or dicts (for example the result of an earlier repetition).
+        return _hash(tuple(self))
+
 
 class _StringLiteral(str):
     def __call__(self, ${ctx}_text, _pos):
